@@ -131,6 +131,23 @@ Theorem C12_live_lockwait_refuted :
 Proof. exact lockwait_refuted. Qed.
 Print Assumptions C12_live_lockwait_refuted.
 
+(* ---- the executable oracles mean the property (independently of the model) ---- *)
+(* whatever trace the strong oracle accepts -- in particular one recorded from the real
+   implementation -- consists of whole-write groups in order with a bounded remainder, only
+   successful results, and the documented lifecycle *)
+Theorem C12_oracle_sound : forall c ops tr alive, strong_ok c ops tr alive = true ->
+  (exists groups rest, accepted ops = concat groups ++ rest /\ received (all_evs tr) = map (@concat byte) groups /\
+                       length (concat rest) <= eff_size c) /\
+  Forall2 res_ok ops (map fst tr) /\ alive = is_running (spec_phase ops).
+Proof. exact oracle_sound. Qed.
+Print Assumptions C12_oracle_sound.
+
+(* whatever trace the weak oracle (unreliable sinks, raw bufio) accepts has stream integrity *)
+Theorem C12_weak_oracle_sound : forall ops tr p, wrun p ops tr = true ->
+  exists p', p ++ consumed ops tr = concat (received (all_evs tr)) ++ p'.
+Proof. exact weak_oracle_sound. Qed.
+Print Assumptions C12_weak_oracle_sound.
+
 (* ---- wire: the oracle the driver runs accepts what the model observes, for every case ---- *)
 Theorem C12_wire : forall i, spec i (model i) = true.
 Proof. exact spec_model. Qed.
